@@ -60,6 +60,22 @@ def spec_shared(tier):
                    {"O1": "then_exec", "O2": "get_const", "O3": "copy_drop"}] if tier != "quick" else [])
 
 
+def spec_wait(tier):
+    grid = [{"n": "1", "form": f, "second": s} for f in ("wait", "wait_for") for s in ("get", "then")]
+    grid += [{"n": "2", "form": "wait"}, {"n": "2", "form": "wait_for"}, {"n": "2", "form": "wait_for_it", "second": "then"}]
+    if tier != "quick":
+        grid += [{"n": "2", "form": "wait", "second": "then"}, {"n": "2", "form": "wait_for", "second": "then"}]
+    return ConcSpec(
+        name="Wait", scenario="wt", grid=grid,
+        inv_props=dict(OWN_INVS, **RACE_INVS), primary="C11",
+        mc_cfgs=[("Wait_MC.cfg", 8, 900, "Wait: 1-2 producers x {Wait, WaitFor} x {Get, ThenInline} afterwards, deadline anywhere, all interleavings")],
+        paths_cfg=None,
+        dfs_max=12000, preempt=2,
+        rand_execs=300 if tier == "quick" else 4000,
+        rand_grid=[{"n": "3", "form": "wait_for"}, {"n": "3", "form": "wait_for_it", "second": "then"}, {"n": "3", "form": "wait"}],
+        trace_timeout=1500)
+
+
 # ------------------------------------------------------------------------------------------------ checks
 
 @check("C01")
@@ -80,9 +96,17 @@ def c06(rep, tier, seed):
                         "(preemption-bounded DFS for pairs in the quick tier), 3 observers by random schedules (thorough)"]
 
 
+@check("C11")
+def c11(rep, tier, seed):
+    """Wait returns only when ready; a timed-out wait leaves the futures intact (Wait.tla)"""
+    run_conc(rep, spec_wait(tier), tier, seed, {"C11"})
+    rep.assumptions += ["virtual deadline fired by the controller at any scheduling point while the waiter sleeps; "
+                        "n = 1, 2: all schedules with at most 2 preemptions on the code; n = 3: seeded random schedules; n <= 2 exhaustively in the model"]
+
+
 def all_conc_specs(tier):
     """every concurrent specification that carries ownership ghost state and a MemModel instance"""
-    return [spec_unique(tier), spec_shared(tier)]
+    return [spec_unique(tier), spec_shared(tier), spec_wait(tier)]
 
 
 @check("C03")
